@@ -24,3 +24,11 @@ __all__ = [
     "Task",
     "__version__",
 ]
+
+# Verification tracing hooks: inactive unless SCRIPTPLAN_VERIF=1 (see scriptplan/_verif_trace.py)
+import os as _os
+
+if _os.environ.get("SCRIPTPLAN_VERIF") == "1":
+    from scriptplan import _verif_trace as _verif_trace
+
+    _verif_trace.install()
